@@ -59,6 +59,11 @@ def main(tier, only):
         for feat in KNOWN_FEATURES.get(which, []) + RISKY_FEATURES.get(which, []):
             cfgs.append(dict(tag="%s.class-%s" % (which, feat), only=["adq_" + which], timeout=to,
                              env={"VERIF_D": "4", "VERIF_RTL": "0", "VERIF_ONLY_FEATURE": feat, "VERIF_RISKY": "1"}))
+    PX = 8 if quick else 16
+    for k in range(PX):
+        cfgs.append(dict(tag="xml-ns.p%d" % k, only=["adq_xml_ns"], timeout=to, allow_vacuous=True,
+                         env={"VERIF_PART": "%d/%d" % (k, PX), "VERIF_XML_SLOTS": "1,1" if quick else "2,1", "VERIF_XML_CLOSE": "0,2" if quick else "0,1,2,3",
+                              "VERIF_SKIP_FEATURES": ",".join(KNOWN_FEATURES.get("xml", []))}))
     PT = 8 if quick else 16
     for k in range(PT):
         cfgs.append(dict(tag="tar.p%d" % k, only=["adq_tar"], timeout=to, env={"VERIF_PART": "%d/%d" % (k, PT), "VERIF_TAR2": "0" if quick else "1"},
@@ -73,6 +78,8 @@ def main(tier, only):
         adequacy="csv/xml/rest: every derivation tree of the shipped grammar whose pre-order choice sequence, read as a mixed-radix numeral (left-to-right and "
                  "right-to-left child order), is below %d, with identifiers / fields / texts chosen from small macro sets; simple tar: every header built from "
                  "3 names x padding 99/100/101 x type flag x 4 link names x padding x 4 checksum variants, 1 entry%s" % (TOP * 16 ** (D - 1), "" if quick else " or 2 entries (one of them the valid baseline)"),
+        xml_namespaces="element-level scenarios: outer element (4 prefixes x %s attributes from a menu of 8 incl. xmlns:a / xmlns:b / prefixed / xml: / xmlns:xmlns / default namespace) x 5 body kinds "
+                       "(text, self-closing, child, child with text, two children) x inner element (4 prefixes x 1 attribute) x %d close-tag variants" % ("1" if quick else "2", 2 if quick else 4),
         solve="%d seeds x 5 cost settings (default, the repository's two tuned vectors, two extreme vectors) x instantiation limits %s, first %d solutions (tar: %d)" % (
             nseeds, "1" if quick else "1..2", nsol, max(3, nsol // 2)))
     run.engines = dict(crosshair="crosshair-tool 0.0.110 on z3 4.11.2")
